@@ -222,6 +222,8 @@ def expected_demand(s, jn, t):
     o = s["opts"]
     tot = 0.0
     for b, p, c in node(s, jn)["demands"]:
+        if p is None and "1" in s["patterns"]:
+            p = "1"         # a demand without a pattern follows the default pattern (options.hydraulic.pattern = '1') when that exists
         m = 1.0 if p is None else pattern_value(s["patterns"][p], t, o["pstart"], o["pat"], o.get("interp", False))
         tot += b * m
     return tot * o["mult"]
